@@ -776,10 +776,20 @@ type h5Oracle struct {
 }
 
 func (o *h5Oracle) fail(scope, what string) {
-	if !o.failed {
-		o.c.OracleFail(o.id, o.scope(scope), what, o.body)
-		o.failed = true
+	if o.failed {
+		return
 	}
+	o.failed = true
+	sc := o.scope(scope)
+	if sc == "H5:int-width" {
+		// the known finding fires on most int/uint programs: record a few, count the rest, so that the harness's cap on
+		// recorded failures is never used up by it
+		o.c.Stats.Count("oracle_fail_total:" + sc)
+		if o.c.Stats.Hist["oracle_fail:"+sc] >= 25 {
+			return
+		}
+	}
+	o.c.OracleFail(o.id, sc, what, o.body)
 }
 
 func parseLoadResult(r *tokenReader) (h5Val, string) {
